@@ -31,6 +31,10 @@ def shards(tier):
         for s, skip in ((["A", "A", "A"], [1]), (["A", "B", "A"], [0]), (["A", "timing", "A"], [1]), (["B", "A", "sub0", "A"], [1]), (["A", "A"], [0])):
             out.append({"steps": s, "rsub": [2, 2], "xdrop": 0, "r0skip": skip})
             out.append({"steps": s, "rsub": [3, 2], "xdrop": 1, "r0skip": skip})
+        # the first recipient dies while a manager-originated message (or a client frame) is being delivered to both
+        for s in (["timing"], ["A", "timing"], ["traffic", "A"], ["A", "info", "B"], ["A", "A"]):
+            for k in (1, 2):
+                out.append({"steps": s, "rsub": [2, 2], "xdrop": 0, "r0fail": k})
         # a recipient that is served before it has completed its handshake: the numbering runs on across the CONNECT
         for s in (["A", "conn0", "A"], ["sub0", "conn0", "B", "A"], ["A", "B", "conn0"], ["conn0", "A", "A"]):
             out.append({"steps": s, "rsub": [2, 2], "xdrop": 0, "r0new": 1})
@@ -49,6 +53,9 @@ def shards(tier):
                 if len(s) == 2:
                     for pos in (0, 1, 2):
                         out.append({"steps": s[:pos] + ["conn0"] + s[pos:], "rsub": [2, 3], "xdrop": 0, "r0new": 1})
+                if len(s) <= 2:
+                    out.append({"steps": s, "rsub": [2, 2], "xdrop": 0, "r0fail": 1})
+                    out.append({"steps": s, "rsub": [2, 3], "xdrop": 1, "r0fail": 2})
                 if len(s) >= 2:
                     for skip in ([0], [1], [0, 1]):
                         out.append({"steps": s, "rsub": [2, 3], "xdrop": 0, "r0skip": skip})
